@@ -606,6 +606,10 @@ def materialise(cfg, indir, outdir, out_name="out.pqr"):
         if name is None:
             paths[key] = os.path.join(indir, "missing-" + key)
             continue
+        if name == "<dir>":
+            paths[key] = os.path.join(indir, "dir-" + key)
+            os.makedirs(paths[key], exist_ok=True)
+            continue
         fdata = load(name).encode()
         fault = (cfg.get("file_content") or {}).get(key)
         if fault:
